@@ -11,7 +11,7 @@ from props import _b17 as U
 
 ID = "C45"
 THEOREMS = ["C45_applies", "C45_lines_are_the_versions", "C45_applies_ctx0_refuted", "C45_applies_ctx0_partial",
-            "C45_counts", "C45_changes_preserved", "C45_numstat"]
+            "C45_counts", "C45_changes_preserved", "C45_numstat", "C45_default_context"]
 MODEL_FILES = ["Unified.v"]
 MODELLED = ("plumbing/format/diff/unified_encoder.go: UnifiedEncoder.Encode, writeFilePatchHeader, appendPathLines, "
             "hunksGenerator.Generate/processHunk/addLineNumbers/processEqualsLines, splitLines, hunk.writeTo/AddOp, op.writeTo; "
@@ -500,12 +500,11 @@ class Hunks(Suite):
         if case.get("mode") == "hunks" and case.get("ctx") == 0:
             # narrow: context-free patch with a hunk that replaces lines (a Delete chunk directly followed by an Add
             # chunk: the new-side start is one too small; the mirror image for Add followed by Delete)
-            for (want, a, b) in (("strict: new-side position", 2, 1), ("strict: old-side position", 1, 2)):
-                if reason.startswith(want):
-                    for f in case["files"]:
-                        ch = self.chunks_of(f)
-                        if any(ch[i][0] == a and ch[i + 1][0] == b for i in range(len(ch) - 1)):
-                            return "ctx0-replace-newpos"
+            if reason.startswith("strict: new-side position") or reason.startswith("strict: old-side position"):
+                for f in case["files"]:
+                    ch = self.chunks_of(f)
+                    if any({ch[i][0], ch[i + 1][0]} == {1, 2} for i in range(len(ch) - 1)):
+                        return "ctx0-replace-newpos"
         return None
 
     def extra(self, ctx, cases, impl, model):
@@ -635,6 +634,10 @@ class Trees(Suite):
     def finding_class(self, case, reason, reply):
         if case.get("mode") == "tree" and reason.startswith("git apply refuses") and "does not match old mode" in reason and self.typechanges(case):
             return "typechange-as-mode-change"
+        if case.get("mode") == "tree" and reason.startswith("git apply refuses") and "lacks filename information" in reason:
+            fa, fb = U.flatten(case["a"]), U.flatten(case["b"])
+            if any(b'"' in p for p in set(fa) | set(fb) if fa.get(p) != fb.get(p)):
+                return "unquoted-doublequote-path"
         return None
 
     def extra(self, ctx, cases, impl, model):
